@@ -1,5 +1,5 @@
 (* Corr/SerScalar.v -- case type and checker for the scalar side of the serializer (C12). *)
-From SS Require Export Model.SerScalar Corr.Common.
+From SS Require Export Model.SerScalar Model.BlockScalar Corr.Common.
 Local Open Scope N_scope.
 
 Inductive case :=
@@ -8,7 +8,15 @@ Inductive case :=
 | CEmitKey (s : str) (y12 : bool) (out : str)
 | CDq (quoted : str) (decoded : option str)
 | CSq (quoted : str) (decoded : option str)
-| CFloatNorm (digits out : str).
+| CFloatNorm (digits out : str)
+(* literal block scalars: what the serializer wrote for `v` at body indentation `ind` (header + body lines) ... *)
+| CLitEmit (ind : N) (v : str) (explicit : bool) (ch : chomp) (lines : list str)
+(* ... and what the parser reads from a literal block (explicit content indentation or none, chomping, body lines):
+   the text, or None when it does not accept the document *)
+| CLitRead (explicit : option N) (ch : chomp) (lines : list str) (value : option str).
+
+Definition chomp_eqb (a b : chomp) : bool :=
+  match a, b with Strip, Strip | Clip, Clip | Keep, Keep => true | _, _ => false end.
 
 Definition check_case (c : case) : bool :=
   match c with
@@ -20,4 +28,9 @@ Definition check_case (c : case) : bool :=
   | CDq q d => opt_eqb str_eqb (dq_unescape q) d
   | CSq q d => opt_eqb str_eqb (sq_unescape q) d
   | CFloatNorm d out => str_eqb (float_normalize d) out
+  | CLitEmit ind v ex ch lines =>
+    let b := emit_literal (N.to_nat ind) v in
+    Bool.eqb (b_explicit b) ex && chomp_eqb (b_chomp b) ch && list_eqb str_eqb (b_lines b) lines
+  | CLitRead ex ch lines value =>
+    opt_eqb str_eqb (read_literal (option_map N.to_nat ex) ch lines) value
   end.
